@@ -37,6 +37,8 @@ def instr13(draw):
     if k == 9 and draw(st.booleans()):
         return {"op": "observe13", "a": a, "b": b, "o": o, "what": draw(st.sampled_from(["distance", "distance", "dot", "angle", "expectation"])),
                 "on": "S", "prefactor_first": draw(st.sampled_from(chain.SCALARS))}
+    if k == 9 and draw(st.integers(0, 2)) == 0:
+        return {"op": "expand13", "a": a, "M": draw(st.sampled_from([4, 8, 16])), "hint": draw(st.booleans()), "rng": draw(st.integers(0, 1000))}
     if k == 9:
         return {"op": "derive_gauge", "a": a, "g": draw(chain.gauge_instr("S")), "on": draw(st.sampled_from(["S", "S", "O", "M"]))}
     if k == 10:
@@ -337,6 +339,38 @@ class Interp13(Interp06):
             regs.remove(reg)
             return
         reg.model = np.asarray(d)
+
+    # -- derive by enlarging the bonds (used by the drivers before TDVP): the input must stay put ---------------------------------
+    def i_expand13(self, ins):
+        from renormalizer.utils import CompressConfig, CompressCriteria
+
+        reg = self.pick(self.S, ins["a"])
+        h = self._ham()
+        if reg is None or self.n < 2 or len(self.S) > 12:
+            return
+        x = reg.obj
+        if not np.linalg.norm(reg.model) > 1e-8:
+            return
+        x.compress_config = CompressConfig(CompressCriteria.fixed, max_bonddim=max(ins["M"], max(x.bond_dims)))
+        hint = h[0] if (ins.get("hint") and h) else None
+        if hint is not None and hint.is_complex and not x.is_complex:
+            hint = None
+        np.random.seed(ins["rng"])
+        try:
+            y = x.expand_bond_dimension(hint_mpo=hint, coef=1e-10, include_ex=False)
+        except Exception as e:  # noqa
+            sg, in_lib = lib_exception_sig(e)
+            if not in_lib:
+                raise
+            self.r.classes.append("expand13.raised")  # applicability of the expander itself is not this property's subject
+            return
+        d = chain.dense_of(y)
+        if y is x or not np.all(np.isfinite(d)) or np.linalg.norm(d) == 0:
+            if y is x:
+                self.r.fail("expand13.returns_input", "expand_bond_dimension returned its input object")
+            return
+        self.r.classes.append("expand13" + (".hint" if hint is not None else ".random"))
+        self.S.append(chain.Reg(y, d, reg.q, "S", "expand"))
 
     # -- derive by gauge-moving a copy: the original must stay put ----------------------------------------------------------------
     def i_derive_gauge(self, ins):
